@@ -39,6 +39,8 @@ pub struct Case {
     /// widths of the rendezvous groups (group g needs widths[g] tasks inside at once)
     pub widths: Vec<u8>,
     pub interleave_submit: bool,
+    /// the submitter releases its pool handle right after the last submission instead of after the last report: tasks that are still queued were handed to the pool and must run all the same
+    #[serde(default)] pub early_drop: bool,
     pub scheduler: Sched,
     pub sched_seed: u64,
     pub iterations: usize,
@@ -85,6 +87,8 @@ fn body(case: &Case) {
     }
     drop(done_tx);
     // every task reports once; a lost task leaves this thread blocked, which shuttle reports as a deadlock
+    let mut pool = Some(pool);
+    if case.early_drop { drop(pool.take()); }
     for _ in 0..t { done_rx.recv().expect("a task was lost: all senders are gone but not every task reported"); }
     drop(pool);
     for i in 0..t {
@@ -185,7 +189,7 @@ fn small_configs() -> Vec<(usize, Vec<Task>, Vec<u8>)> {
 
 fn case_strategy(iterations: usize, with_panics: bool) -> impl Strategy<Value = Case> {
     (1usize..=8).prop_flat_map(move |n| (Just(n), tasks_strategy(n, with_panics), any::<bool>(), prop_oneof![2 => Just(Sched::Random), 3 => (1u8..=4).prop_map(Sched::Pct)], any::<u64>()))
-        .prop_map(move |(n, (tasks, widths), interleave_submit, scheduler, sched_seed)| Case { n, tasks, widths, interleave_submit, scheduler, sched_seed, iterations, schedule: None })
+        .prop_map(move |(n, (tasks, widths), interleave_submit, scheduler, sched_seed)| Case { n, tasks, widths, interleave_submit, early_drop: sched_seed % 4 == 3, scheduler, sched_seed, iterations, schedule: None })
 }
 
 // ---- worker protocol --------------------------------------------------------------------------------------------
@@ -280,7 +284,7 @@ fn enumerate_small(property: &str, cap: usize, local: u32, workers: u32, worker:
         for inter in [false, true] {
             k += 1;
             if (k - 1) % workers.max(1) != local { continue; }
-            let case = Case { n, tasks: tasks.clone(), widths: widths.clone(), interleave_submit: inter, scheduler: Sched::Dfs, sched_seed: 0, iterations: cap, schedule: None };
+            let case = Case { n, tasks: tasks.clone(), widths: widths.clone(), interleave_submit: inter, early_drop: false, scheduler: Sched::Dfs, sched_seed: 0, iterations: cap, schedule: None };
             let inflight = dir.join(format!("w{}.inflight.json", worker));
             let _ = std::fs::write(&inflight, serde_json::to_vec(&json!({"section": "schedules-dfs", "case": &case})).unwrap());
             let t0 = std::time::Instant::now();
@@ -343,7 +347,7 @@ fn main() {
             let mut real = unsafe { std::fs::File::from_raw_fd(saved) };
             for (k, (n, tasks, widths)) in small_configs().into_iter().enumerate() {
                 for inter in [false, true] {
-                    let case = Case { n, tasks: tasks.clone(), widths: widths.clone(), interleave_submit: inter, scheduler: Sched::Dfs, sched_seed: 0, iterations: cap, schedule: None };
+                    let case = Case { n, tasks: tasks.clone(), widths: widths.clone(), interleave_submit: inter, early_drop: false, scheduler: Sched::Dfs, sched_seed: 0, iterations: cap, schedule: None };
                     let t0 = std::time::Instant::now();
                     let r = run_case(&case, &std::env::temp_dir());
                     let _ = writeln!(real, "config {} n={} tasks={:?} interleave={} -> {:?} in {} ms", k, n, tasks, inter, r.as_ref().map_err(|f| f.message.lines().next().unwrap_or("").to_string()), t0.elapsed().as_millis());
